@@ -15,6 +15,10 @@ BOT, TOP, STAR = rm.BOT, rm.TOP, rm.STAR
 UNK = ('unk',)
 
 
+class WorkBudget(Exception):
+    pass
+
+
 class Env:
     __slots__ = ('parent', 'vars', 'funcs', 'tvars', 'kind', 'cls', 'func', 'names')
 
@@ -100,6 +104,11 @@ class RC:
         return r
 
     def report(self, rule, path, exp, act, node=None):
+        key = (rule, '/'.join(str(x) for x in path), str(exp), str(act))
+        seen = self.__dict__.setdefault('_reported', set())
+        if key in seen:
+            return
+        seen.add(key)
         self.viol.append({'rule': rule, 'path': '/'.join(str(x) for x in path), 'node_id': id(node) if node is not None else None,
                           'after_undetermined': self.stats.get('undetermined_type_parameters', 0) > getattr(self, '_undet_mark', 0),
                           'expected': rm.show(exp) if isinstance(exp, tuple) else exp,
@@ -196,9 +205,16 @@ class RC:
         self.fret = {}
         for it in range(3):
             self.viol = []
+            self._reported = set()
             self.stats = {}
             self.fret_new = {}
-            self.run_once()
+            self._pass = it
+            try:
+                self.run_once()
+            except WorkBudget:
+                self.viol = []
+                self.stats = {'rc_infer_work_budget_exceeded': 1}
+                return self.viol
             stable = self.fret_new == self.fret
             self.fret = self.fret_new
             if stable and it > 0:
@@ -536,12 +552,30 @@ class RC:
             env.vars[d.name] = (vt, d)
 
     # ---------------------------------------------------------------- expressions
+    INSENSITIVE = ('IntegerConstant', 'RealConstant', 'BooleanConstant', 'CharConstant', 'StringConstant', 'BottomConstant',
+                   'Variable', 'FieldAccess', 'LogicalExpr', 'EqualityExpr', 'ComparisonExpr', 'ArithExpr', 'Is', 'Assignment')
+
     def ty(self, e, env, path, exp=None):
         m = getattr(self, 'ty_' + type(e).__name__, None)
         if m is None:
             self.bump('no_judgement')
             self.bump('unknown_node_' + type(e).__name__)
             return UNK
+        if self.infer:
+            # inference re-types arguments (once without, once with the expected type): cache what cannot depend on it,
+            # and bound the total work (nested diamonds double it per level)
+            cache = self.__dict__.setdefault('_tcache', {})
+            k = (id(e), self.__dict__.get('_pass', 0))
+            if type(e).__name__ in self.INSENSITIVE and k in cache:
+                return cache[k]
+            self._work = self.__dict__.get('_work', 0) + 1
+            if self._work > 400000:
+                raise WorkBudget()
+            r = m(e, env, path, exp)
+            cache[k] = r
+            self._keep = self.__dict__.get('_keep', [])
+            self._keep.append(e)
+            return r
         self.bump('exprs')
         return m(e, env, path, exp)
 
